@@ -75,6 +75,19 @@ def gen_c05_client(ctx):
         elif r == 1: ops.append(op_put(rng, cfg, size=size))
         else: ops.append(op_list(rng, cfg))
         yield line(c0, ops)
+    # downloads and listings whose network segments end between the CR and the LF of a pair (the peer pauses between segments),
+    # with and without a transfer callback, all four methods
+    text = b"alpha\r\nbeta\rgamma\r\n\r\ndelta\r"
+    for mode in "pa":
+        for rfc in (0, 1):
+            cfg = Cfg(rng, "C05", mode=mode, rfc=rfc, ttype="A", ip=4); c0 = str(cfg)
+            for sizes in ("6.21", "1", "6.1.12.1.1.1", "19.1.1.1", "27.1"):
+                for cb in ("-", "p0"):
+                    g = [setup_groups(rng, cfg), ",".join([rnd_reply(rng, 150), rnd_reply(rng, 226), "Dsend:h%s:%s:cp" % (text.hex(), sizes)])]
+                    yield line(c0, start(rng, cfg, login=False) + ["get:%s:ok:%s@" % (H(b"t.txt"), cb) + "/".join(g)])
+                g = [setup_groups(rng, cfg), ",".join([rnd_reply(rng, 150), rnd_reply(rng, 226), "Dsend:h%s:%s:cp" % (text.hex(), sizes)])]
+                yield line(c0, start(rng, cfg, login=False) + ["list:-:0@" + "/".join(g)])
+    ctx["scopes"].append("ASCII downloads / listings whose segments are cut between CR and LF (paused peer), with and without a transfer callback x four methods")
 
 # ---------------------------------------------------------------- C04 upload
 def gen_c04(ctx):
@@ -252,6 +265,38 @@ def gen_c13(ctx):
             else: ops += ["noop@%s,%s" % (R(b"abc not a reply"), extra), "disc:0"]
             ops += ["isconn", op_connect(rng, cfg, user=(b"u", b"p") if rng.chance(1, 2) else None), op_simple(rng, cfg, "noop", 200), op_disc(rng, cfg, graceful=True), "isconn"]
             yield line(c0, ops)
+    # a 421 at every position at which the client reads a reply: greeting, after a 120, USER / PASS / TYPE, set-up command,
+    # transfer command, completion reply, RNFR / RNTO, the replies to ABOR, QUIT - then: not connected, and a new session works
+    for mode in "pa":
+        for rfc in (0, 1):
+            cfg = Cfg(rng, "C13", mode=mode, rfc=rfc, ttype="I", ip=4); c0 = str(cfg)
+            r421 = lambda: rnd_reply(rng, 421)
+            abor = lambda tail: "get:%s:ok:p1@" % H(b"f.bin") + "/".join([setup_groups(rng, cfg), ",".join([rnd_reply(rng, 150), "Dsend:g5.20000::c"])] + tail)
+            cases = [
+                [op_connect(rng, cfg, greeting=[r421()])],
+                [op_connect(rng, cfg, greeting=[rnd_reply(rng, 120), r421()])],
+                [op_connect(rng, cfg, user=(b"u", b"p"), login_codes=(421, 0, 0))],
+                [op_connect(rng, cfg, user=(b"u", b"p"), login_codes=(331, 421, 0))],
+                [op_connect(rng, cfg, user=(b"u", b"p"), login_codes=(331, 230, 421))],
+                start(rng, cfg) + [op_login(rng, cfg, codes=(331, 421, 0))],
+                start(rng, cfg) + [op_get(rng, cfg, setup_code=421)],
+                start(rng, cfg) + [op_get(rng, cfg, main_code=421)],
+                start(rng, cfg) + [op_get(rng, cfg, completion=421, size=100)],
+                start(rng, cfg) + [op_get(rng, cfg, completion=421, size=20000)],
+                start(rng, cfg) + [op_put(rng, cfg, completion=421, size=100)],
+                start(rng, cfg) + [op_put(rng, cfg, main_code=421)],
+                start(rng, cfg) + [op_list(rng, cfg, main_code=421)],
+                start(rng, cfg) + ["list:-:0@" + "/".join([setup_groups(rng, cfg), ",".join([rnd_reply(rng, 150), r421(), "Dsend:h%s::c" % b"a\r\nb\r\n".hex()])])],
+                start(rng, cfg) + [op_rename(rng, cfg, c1=421)],
+                start(rng, cfg) + [op_rename(rng, cfg, c1=350, c2=421)],
+                start(rng, cfg) + [abor([r421()])],
+                start(rng, cfg) + [abor([",".join([rnd_reply(rng, 426), r421()])])],
+                start(rng, cfg) + [op_simple(rng, cfg, "logout", 421)],
+                start(rng, cfg) + [op_disc(rng, cfg, True, code=421)],
+            ]
+            for ops in cases:
+                yield line(c0, ops + ["isconn", op_connect(rng, cfg), op_simple(rng, cfg, "noop", 200), "isconn", "disc:0"])
+    ctx["scopes"].append("a 421 at each of 20 reply positions (greeting, after 120, login steps, set-up, transfer command, completion, RNFR/RNTO, ABOR replies, REIN, QUIT) x four data-connection methods, each followed by is_connected and a new session")
     for _ in range(n_of(ctx, 300, 4000)):
         cfg = Cfg(rng, "C13"); c0 = str(cfg)
         ops = []
